@@ -23,7 +23,7 @@ class Run:
 
 
 def run_algo(desc, algo, params, schedule, seed, max_steps=20000, tick_budget=0, wire=False, mode=None,
-             stop_on_error=True, before_run=None):
+             stop_on_error=True, before_run=None, slow=()):
     random.seed(seed)
     try:
         import numpy
@@ -35,6 +35,9 @@ def run_algo(desc, algo, params, schedule, seed, max_steps=20000, tick_budget=0,
         dcop, variables, constraints = build.build_dcop(desc)
         r.graph, r.comps = simnet.build_computations(dcop, GRAPH_OF[algo], algo, params, mode=mode)
     net = r.net = simnet.SimNet(schedule, wire=wire, max_steps=max_steps, tick_budget=tick_budget)
+    if slow and r.comps:  # computations served last by the scheduler ("one neighbour much slower than the others")
+        order = sorted(r.comps)
+        net.slow = {order[i % len(order)] for i in slow}
     for name, c in r.comps.items():
         net.add(c)
         r.cycles[name] = []
